@@ -11,12 +11,15 @@
    (a local variable holds the hedged degree). *)
 From Coq Require Import ZArith NArith Bool List String.
 From VF Require Import Num GenNorm GenHedge GenTerm Core.
+From VF Require GenSwitches.
 Import ListNotations.
 Set Implicit Arguments.
 Local Open Scope list_scope.
 
 (* ---- which loop the CURRENT code has (see the header).  Switch to `false` together with the fix of /repo. *)
-Definition code_has_F1 : bool := true.
+(* read off the AST of Consequent.modify on every run (tools/translate.py, Gen/GenSwitches.v): true while the hedge loop
+   assigns the loop-carried parameter (known finding F1) *)
+Definition code_has_F1 : bool := GenSwitches.consequent_modify_carries_degree.
 
 (* ---- generic helpers *)
 (* {name(x): x for x in xs}.get(key): the LAST element with that name wins; returned with its position *)
